@@ -12,6 +12,10 @@ CONSTANTS
   Versions = {771}
   Suites = {49199}
   Hellos = {"Golang-0"}
+  Suites13 = {4865}
+  Hellos13 = {"Golang-0"}
+  ExtraLens13 = {}
+  SecretLens = {48}
 INIT Init
 NEXT Next
 INVARIANTS Authentic RoundTrip KeysSane Agree
